@@ -13,6 +13,8 @@
 -/
 import RaftVerif.Proofs.AppendEntries
 import RaftVerif.Proofs.ElectionLemmas
+import RaftVerif.Proofs.ReplProgress
+import RaftVerif.Proofs.ReplExample
 set_option linter.unusedSimpArgs false
 set_option linter.unusedVariables false
 namespace Raft
@@ -90,5 +92,67 @@ theorem C15_learned_member_next_index (n : Node) (now : Nat) (c : Config) (i : N
   apply List.mem_append_right
   apply List.mem_map.mpr
   exact ⟨i, List.mem_filter.mpr ⟨hin, by simp [hnew]⟩, rfl⟩
+
+/-! ### Cluster level (Proofs/ReplProgress.lean): no reachable state is a dead end
+
+    Liveness proper needs the timers and a network that eventually delivers; that is checked by
+    the fault-free periods of E4. What a theorem can say — and says here for EVERY reachable state
+    of the replication-layer model, whatever crashes, partitions, lost / duplicated / reordered
+    messages, competing candidates and half-done replications produced it — is that the
+    continuation a fault-free period allows exists: no combination of terms, votes, logs and
+    commit indices can wedge the protocol. -/
+
+/-- **From every reachable state the cluster can converge**: there is a continuation after
+    which one voter leads a term above all earlier ones, has committed its whole log including
+    a new entry of that term, and every voter holds the same log, commit index and term. -/
+theorem C15_convergence_possible {cfg : Config} (hnd : cfg.voterIds.Nodup) (hne : cfg.voterIds ≠ []) {s : Repl.AState}
+    (hr : Repl.Reachable cfg s) :
+    ∃ s' l T, Repl.ReachableFrom cfg s s' ∧ cfg.isVoter l = true ∧ (s'.nodes l).role = .leader ∧ (s'.nodes l).term = T ∧
+      (∀ v, cfg.isVoter v = true → (s.nodes v).term < T) ∧
+      (s'.nodes l).log = (s.nodes l).log ++ [⟨T, 0⟩] ∧
+      (∀ v, cfg.isVoter v = true → (s'.nodes v).log = (s'.nodes l).log ∧
+        (s'.nodes v).commit = (s'.nodes l).log.length ∧ (s'.nodes v).term = T) :=
+  Repl.progress_possible hnd hne hr
+
+/-- … and nothing that was applied anywhere is undone on the way (C01 across the continuation):
+    every prefix a node had committed before is a prefix of the common log afterwards. -/
+theorem C15_convergence_keeps_committed {cfg : Config} (hnd : cfg.voterIds.Nodup) (hne : cfg.voterIds ≠ []) {s : Repl.AState}
+    (hr : Repl.Reachable cfg s) :
+    ∃ s' l, Repl.ReachableFrom cfg s s' ∧ (s'.nodes l).role = .leader ∧
+      (∀ v, cfg.isVoter v = true → (s'.nodes v).log = (s'.nodes l).log ∧ (s'.nodes v).commit = (s'.nodes l).log.length) ∧
+      ∀ a, (s.nodes a).log.take (s.nodes a).commit <+: (s'.nodes l).log := by
+  obtain ⟨s', l, T, hf, hv, hl, _, hTgt, hlog, hall⟩ := Repl.progress_possible hnd hne hr
+  refine ⟨s', l, hf, hl, fun v h => ⟨(hall v h).1, (hall v h).2.1⟩, ?_⟩
+  intro a
+  have hcl := (hall l hv).2.1
+  rcases Repl.state_machine_safety hnd hr hf a l with h | h
+  · exact h.trans (List.take_prefix _ _)
+  · -- impossible: the common log ends with an entry of the new term T, and nothing committed before has that term
+    exfalso
+    rw [hcl, List.take_length] at h
+    have hi := Repl.inv_reachable hnd hr
+    have heT : (⟨T, 0⟩ : Repl.AEntry) ∈ (s.nodes a).log.take (s.nodes a).commit :=
+      h.subset (by rw [hlog]; simp)
+    rcases (hi.commit_ok a).2 with h0 | ⟨i, t, c0, g0, _, hg0, _, _, _, ⟨Q, hQ, hQa⟩, hp⟩
+    · rw [h0] at heT; simp at heT
+    · have hQpos : 0 < Q.length := by
+        have := hQ.2.2
+        unfold Config.hasQuorum at this
+        simp only [decide_eq_true_eq] at this
+        omega
+      obtain ⟨m, hm⟩ := List.exists_mem_of_length_pos hQpos
+      obtain ⟨j, _, hack⟩ := hQa m hm
+      have ht1 := (hi.ack_ok m j t hack).1
+      have ht2 := hTgt m (hQ.2.1 m hm)
+      have he : (⟨T, 0⟩ : Repl.AEntry) ∈ g0 := List.mem_of_mem_take (hp.subset heT)
+      have := (hi.glog_shape t c0 g0 hg0).1 _ he
+      simp only at this
+      omega
+
+/-- Non-vacuity: the example run of Proofs/ReplExample.lean (three voters, node 3 behind). -/
+example : ∃ s' l T, Repl.ReachableFrom Repl.cfg3 Repl.s7 s' ∧ (s'.nodes l).role = .leader ∧ (s'.nodes l).term = T ∧
+    (s'.nodes 3).log = (s'.nodes l).log ∧ (s'.nodes 3).commit = (s'.nodes l).log.length := by
+  obtain ⟨s', l, T, hf, _, hl, hT, _, _, hall⟩ := C15_convergence_possible Repl.cfg3_nodup (by decide) Repl.s7_reachable
+  exact ⟨s', l, T, hf, hl, hT, (hall 3 (by decide)).1, (hall 3 (by decide)).2.1⟩
 
 end Raft
